@@ -24,7 +24,7 @@ import vlib
 
 WRAPS = ["psGetBrokenDownGMTime", "psGetEntropy", "psGetPrngLocked", "psGetTime", "csAesGcmEncryptTls13",
          "csChacha20Poly1305IetfEncryptTls13", "matrixValidateCertsExt", "psSign", "psRsaDecryptPriv", "tls13Verify",
-         "chooseSkeSigAlg", "chooseSigAlg", "sslUpdateHSHash", "tls13TranscriptHashUpdate", "tls13EncryptMessage"]
+         "chooseSkeSigAlg", "chooseSigAlg", "sslUpdateHSHash", "tls13TranscriptHashUpdate", "tls13EncryptMessage", "psEccX963ExportKey"]
 
 PASS = 1
 STATUS_NAME = {1: "PASS", 0: "UNEXAMINED", -32: "FAIL_BC", -33: "FAIL_DN", -34: "FAIL_SIG", -35: "FAIL_REVOKED", -36: "FAIL",
@@ -92,6 +92,17 @@ def verdict_domain():
             for cb in ((0, 0), (1, 0), (2, 0), (3, 49), (3, 254)):
                 for ver, ca in ((12, 1), (13, 1)):        # a server without CA never gets to validate a client chain (probed on every run)
                     out.append(("D", vline(ver, "s", cb, ca, 0, rc, [(st, fl, 0)])))
+    # E: DTLS 1.2 / DTLS 1.0 run the same parseCertificate behind the datagram layer (ver 212 / 211)
+    for (st, fl) in ALL_CERTS:
+        for rc in (0, -6, -36):
+            for cb in ((0, 0), (1, 0), (2, 0), (6, 45), (6, 48), (3, 254)):
+                for ver in (212, 211):
+                    for role in ("c", "s"):
+                        out.append(("E", vline(ver, role, cb, 1, 0, rc, [(st, fl, 0)])))
+    for a in reps:
+        for cb in ((0, 0), (6, 45), (6, 46), (6, 48)):
+            for ver in (212, 211):
+                out.append(("E", vline(ver, "c", cb, 1, 0, -36, [(a[0], a[1], 0), (-33, 8, 1)])))
     return out
 
 
@@ -196,9 +207,9 @@ def verdict_sweep(ck, h, drv, corpus_v):
         chosen = dom
     else:
         r = ck.rng("verdict-sample")
-        want = {"A": 1300, "B": 300, "C": 250, "D": 250}
+        want = {"A": 1300, "B": 300, "C": 250, "D": 250, "E": 300}
         chosen = []
-        for blk in "ABCD":
+        for blk in "ABCDE":
             xs = [d for d in dom if d[0] == blk]
             r.shuffle(xs)
             chosen += xs[:want[blk]]
@@ -250,8 +261,8 @@ def verdict_sweep(ck, h, drv, corpus_v):
                 bad = None          # explicitly accepted by the application
             if bad:
                 ck.spec_violation("complete-despite:%d:%s:%s" % (p["ver"], reason, cbn if bad != "the callback was told that no alert is pending (alert argument 0)" else cbn + "-told-ok"),
-                                  "TLS %s %s completed the handshake although certificate authentication failed (%s) and %s" % (
-                                      "1.3" if p["ver"] == 13 else "<=1.2", "client" if p["role"] == "c" else "server (client auth)", reason, bad),
+                                  "%s %s completed the handshake although certificate authentication failed (%s) and %s" % (
+                                      {13: "TLS 1.3", 212: "DTLS 1.2", 211: "DTLS 1.0"}.get(p["ver"], "TLS <=1.2"), "client" if p["role"] == "c" else "server (client auth)", reason, bad),
                                   {"harness": "h_auth", "case": c, "observed": "ss=%s val=%d cb=%s out=%s" % ob,
                                    "expected_by_spec": "fatal alert (no callback acceptance of this failure)"})
         if p["cb"][0] != 0 and reason is not None and cba == "0" and not out.startswith("C"):
@@ -273,10 +284,14 @@ def lline(d):
 
 def live_scenarios(ck):
     S = []
-    kexes = [(12, "c02f", "rsa", "dhe"), (12, "c02b", "ec", "dhe"), (12, "009c", "rsa", "rsa"), (12, "003c", "rsa", "rsa"), (13, "", "rsa", "dhe"), (13, "", "ec", "dhe")]
+    kexes = [(12, "c02f", "rsa", "dhe", 0), (12, "c02b", "ec", "dhe", 0), (12, "009c", "rsa", "rsa", 0), (12, "003c", "rsa", "rsa", 0),
+             (13, "", "rsa", "dhe", 0), (13, "", "ec", "dhe", 0),
+             # DTLS 1.2 (AEAD and CBC) and DTLS 1.0: the datagram transport of sess.h, HelloVerifyRequest round included
+             (12, "c02f", "rsa", "dhe", 1), (12, "c027", "rsa", "dhe", 1), (12, "c02b", "ec", "dhe", 1), (11, "c013", "rsa", "dhe", 1)]
     cbs = [(0, "nocb"), (1, "cb-strict"), (2, "cb-permissive")]
-    for ver, suite, key, kex in kexes:
+    for ver, suite, key, kex, dtls in kexes:
         base = dict(ver=ver, suite=suite, key=key, _kex=kex)
+        if dtls: base["dtls"] = 1
         for cbm, cbn in cbs:
             # --- client verifies the server
             cred = [("valid", {}), ("expired", dict(year=2030)), ("wrong-ca", dict(cca=2)), ("no-ca", dict(cca=0, cid=1)),
@@ -285,7 +300,7 @@ def live_scenarios(ck):
             for cls, kv in cred:
                 S.append(dict(base, ccb=cbm, _cls=cls, _cb=cbn, _side="c", _pop=None, **kv))
             pops = ["flip", "stale", "replay", "wrongkey"] if kex == "dhe" else []
-            if cbm == 0 and suite in ("c02f", "c02b", ""):
+            if cbm == 0 and suite in ("c02f", "c02b", "", "c013"):
                 # chains with TWO defects x callbacks that tolerate exactly ONE alert description (completion is legal only when the
                 # tolerated alert is at least as severe as every defect: expired < name < untrusted)
                 multi = [("expired+name-mismatch", dict(year=2030, name="wrong.example.com"), 2),
@@ -321,13 +336,25 @@ def live_scenarios(ck):
                 for pm in ["flip", "stale", "replay", "wrongkey"]:
                     S.append(dict(base, cauth=1, scb=cbm, pop=pm + ":c", _cls="valid", _cb=cbn, _side="s", _pop=pm))
                 # a client that sends Certificate (non-empty) but NO CertificateVerify, then a Finished that is genuine for that transcript
-                S.append(dict(base, cauth=1, scb=cbm, omit="cv:c", _cls="valid", _cb=cbn, _side="s", _pop="absent-cv"))
+                if not dtls:
+                    S.append(dict(base, cauth=1, scb=cbm, omit="cv:c", _cls="valid", _cb=cbn, _side="s", _pop="absent-cv"))
+                if ver != 13 and kex == "dhe":   # (D)TLS <= 1.2 through the honest encoder alone (also keeps DTLS message_seq consistent)
+                    S.append(dict(base, cauth=1, scb=cbm, preset="nocv", _cls="valid", _cb=cbn, _side="s", _pop="absent-cv-preset"))
                 if ver == 13:       # same through the honest encoder alone: the client believes its Certificate was empty
                     S.append(dict(base, cauth=1, scb=cbm, preset="emptycert", _cls="valid", _cb=cbn, _side="s", _pop="absent-cv-preset"))
                 if ver == 12:
                     sa = "0401" if key == "rsa" else "0403"
                     S.append(dict(base, cauth=1, scb=cbm, ssigalgs=sa, forcehash="2:c", _cls="valid", _cb=cbn, _side="s", _pop="unoffered-alg", _alg=2, _soffer="4"))
     return S
+
+
+def vtag(s):
+    """version tag of a scenario in signatures / histograms: 12, 13, 11; DTLS: d12, d10"""
+    return ("d%d" % (12 if s["ver"] == 12 else 10)) if s.get("dtls") else str(s["ver"])
+
+
+def vname(s):
+    return ("DTLS %s" % ("1.2" if s["ver"] == 12 else "1.0")) if s.get("dtls") else "TLS %s" % {13: "1.3", 12: "1.2", 11: "1.1"}[s["ver"]]
 
 
 RES_L = re.compile(r"new=(-?\d+)(?: rewrite=-?\d+)? c=(\S+) s=(\S+) val=(\d+):(\d+) sign=(\d+):(\d+) v=([^;]*);(\S+)")
@@ -372,7 +399,7 @@ def live_matrix(ck, h, drv, altkeys, corpus_l):
         ver, kex = s["ver"], s["_kex"]
         side = s["_side"]; ver_peer = c if side == "c" else sv
         cbn, cls, pop = s["_cb"], s["_cls"], s["_pop"]
-        ck.count("live:%d:%s:%s:%s:%s" % (ver, side, cls, pop or "-", obs_of(ver_peer).split(":")[0]))
+        ck.count("live:%s:%s:%s:%s:%s" % (vtag(s), side, cls, pop or "-", obs_of(ver_peer).split(":")[0]))
         # ---- Impl vs Spec (from the property text; the generator knows what it broke)
         cbm = s.get("ccb" if side == "c" else "scb", 0)
         told = ver_peer["cblast"] if ver_peer["cbcalls"] else None
@@ -384,6 +411,8 @@ def live_matrix(ck, h, drv, altkeys, corpus_l):
             applied = om and int(om.group(2)) >= 1 and int(om.group(1)) >= 1
             if not applied:
                 ck.obligation("live:omission-applied", False, detail="%s => %s" % (line, out[i]))
+        if s.get("preset") == "nocv" and " nocv=1" not in out[i]:
+            ck.obligation("live:preset-nocv-applied", False, detail="%s => %s" % (line, out[i]))
         if s.get("preset") and int(m.group(6)) != 0:
             ck.obligation("live:preset-suppresses-client-signature", False, detail="%s => %s" % (line, out[i]))
         signs = int(m.group(6)) + int(m.group(7))
@@ -392,8 +421,8 @@ def live_matrix(ck, h, drv, altkeys, corpus_l):
         if ver_peer["done"] and (not accepted or pop is not None):
             why = ("defective proof of possession (%s)" % pop) if pop is not None and accepted else \
                   ("%s credentials; callback: %s%s" % (cls, cbn, "" if told is None else " (told alert %d)" % told))
-            ck.spec_violation("live-complete-despite:%d:%s:%s:%s" % (ver, cls if not accepted else pop, cbn, side),
-                              "TLS %s %s completed a handshake with a peer presenting %s" % ("1.3" if ver == 13 else "1.2", "client" if side == "c" else "server", why),
+            ck.spec_violation("live-complete-despite:%s:%s:%s:%s" % (vtag(s), cls if not accepted else pop, cbn, side),
+                              "%s %s completed a handshake with a peer presenting %s" % (vname(s), "client" if side == "c" else "server", why),
                               {"harness": "h_auth", "case": line, "observed": out[i], "expected_by_spec": "no completion on the verifying side"})
         if cls == "valid" and pop is None and not (c["done"] and sv["done"]):
             ck.count("live:valid-handshake-failed")
@@ -411,25 +440,26 @@ def live_matrix(ck, h, drv, altkeys, corpus_l):
         salg = alg if s.get("forcehash", "").endswith(":c") else 4
         if vc == "-":
             continue
-        s_omits = s.get("omit", "").endswith(":s"); c_omits = s.get("omit", "").endswith(":c") or s.get("preset") == "emptycert"
-        if ver == 12:
+        s_omits = s.get("omit", "").endswith(":s"); c_omits = s.get("omit", "").endswith(":c") or s.get("preset") in ("emptycert", "nocv")
+        mv = (200 + ver) if s.get("dtls") else ver
+        if ver != 13:
             ske = ["skeu"] if s_omits else ["ske:%d:%d" % (calg, SIG[spop])]
             first = [cert_tok(vc, ca_c, s.get("depth", 0))] + (ske if kex == "dhe" else []) + ["shd"]
         else:
             first = [cert_tok(vc, ca_c, s.get("depth", 0))] + ([] if s_omits else ["cv:%d:%d" % (calg, SIG[spop])]) + ["fin:1"]
-        head_c = "M %d c %s %s %d %s " % (ver, kex, ccb, fixske, c_off)
+        head_c = "M %d c %s %s %d %s " % (mv, kex, ccb, fixske, c_off)
         back.append((i, "c1", line, out[i])); mlines.append(head_c + " ".join(first)); mexp.append(None)
         if s.get("cauth"):
             if vs == "-":
                 # the server's validator was never called; with a CA list that does not cover the client's certificate the client answers the
                 # CertificateRequest with an EMPTY Certificate message (harness fact: cls wrong-ca on the server side)
                 smsgs = ["nocert"] if s["_cls"] == "wrong-ca" else []
-            elif ver == 12:
+            elif ver != 13:
                 smsgs = [cert_tok(vs, ca_s, 0), "cke"] + ([] if c_omits else ["cv:%d:%d" % (salg, SIG[cpop])]) + ["fin:1"]
             else:
                 smsgs = [cert_tok(vs, ca_s, 0)] + ([] if c_omits else ["cv:%d:%d" % (salg, SIG[cpop])]) + ["fin:1"]
-            back.append((i, "s", line, out[i])); mlines.append("M %d s dhe %s %d %s " % (ver, scb, fixske, s_off) + " ".join(smsgs)); mexp.append(None)
-        if ver == 12:
+            back.append((i, "s", line, out[i])); mlines.append("M %d s dhe %s %d %s " % (mv, scb, fixske, s_off) + " ".join(smsgs)); mexp.append(None)
+        if ver != 13:
             vd = 81 if s.get("kt") == "wrongkey" else (71 if kex == "rsa" else 1)
             back.append((i, "c2", line, out[i])); mlines.append(head_c + " ".join(first + ["fin:%d" % vd])); mexp.append(None)
     mres = ck.run_lines(drv, mlines, timeout=600)[1] if drv else []
@@ -449,7 +479,7 @@ def live_matrix(ck, h, drv, altkeys, corpus_l):
             ps = srv if srv is not None else "done"
         else:
             if srv is not None and not srv == "done":
-                pc, ps = "wait", srv
+                pc, ps = "wait", ("wait" if srv.startswith("wait") else srv)
             elif s.get("kt") == "wrongkey":
                 pc, ps = "wait", "dead"               # the server cannot decrypt the premaster: it fails on the client's Finished and never answers
             else:
@@ -465,13 +495,14 @@ def live_matrix(ck, h, drv, altkeys, corpus_l):
 # ------------------------------------------------------------------ the requirement "authenticate the client" across resumption offers
 def resumption_scenarios():
     S = []
-    for ver, suite in ((12, "c02f"), (11, "c013"), (13, "")):
+    for ver, suite, dtls in ((12, "c02f", 0), (11, "c013", 0), (13, "", 0), (12, "c02f", 1), (12, "c027", 1), (11, "c013", 1)):
         for scb, cbn in ((0, "nocb"), (1, "cb-strict"), (2, "cb-permissive")):
             base = dict(ver=ver, suite=suite, cauth=1, scb=scb, _cb=cbn)
+            if dtls: base["dtls"] = 1
             if ver != 13:
                 S.append(dict(base, offer="fakeid", cid=0, _cls="fake-session-id", _orig=None, _cert=0))
                 S.append(dict(base, offer="fakeid", _cls="fake-session-id", _orig=None, _cert=1))
-                for tk in (0, 1):
+                for tk in ((0,) if dtls else (0, 1)):      # session tickets do not complete over DTLS in this build (probed on every run)
                     t = dict(ticket=1) if tk else {}
                     mech = "ticket" if tk else "id"
                     S.append(dict(base, pre="auth", _cls="genuine-" + mech, _orig=1, _cert=1, **t))
@@ -516,16 +547,17 @@ def resumption_matrix(ck, h, drv):
                      ((int(r.group(3)) >= 1 and int(r.group(4)) >= 1) if s["pre"] == "auth" else int(r.group(3)) == 0)
             if not pre_ok:
                 ck.obligation("resume:earlier-handshake-as-intended", False, detail="%s => %s" % (lines[i], o)); continue
-        ck.count("resume:%d:%s:%s:res%d" % (ver, s["_cls"], obs_of(sv).split(":")[0], res))
+        ck.count("resume:%s:%s:%s:res%d" % (vtag(s), s["_cls"], obs_of(sv).split(":")[0], res))
         authed_now = sval >= 1 and csign >= 1
         if sv["done"]:
             if res == 1 and not s["_orig"] and not authed_now:
-                ck.spec_violation("live-complete-despite:%d:resumed-%s:%s:s" % (ver, s["_cls"], s["_cb"]),
+                # (DTLS shares the parser and the open finding: the registered signature carries the TLS-equivalent version number)
+                ck.spec_violation("live-complete-despite:%d:resumed-%s:%s%s:s" % (ver, s["_cls"], s["_cb"], "-dtls" if s.get("dtls") else ""),
                                   "a server configured for client authentication completed by resuming a session whose original handshake never "
                                   "authenticated the client (no certificate, no callback, no CertificateVerify in either handshake)",
                                   {"harness": "h_auth", "case": lines[i], "observed": o, "expected_by_spec": "full handshake with client authentication"})
             elif res != 1 and not authed_now:
-                ck.spec_violation("live-complete-despite:%d:no-client-auth-after-%s:%s:s" % (ver, s["_cls"], s["_cb"]),
+                ck.spec_violation("live-complete-despite:%s:no-client-auth-after-%s:%s:s" % (vtag(s), s["_cls"], s["_cb"]),
                                   "a server configured for client authentication completed a FULL handshake without CertificateRequest / Certificate / "
                                   "CertificateVerify after the client offered resumption material it could not use (callback calls: %d)" % sv["cbcalls"],
                                   {"harness": "h_auth", "case": lines[i], "observed": o, "expected_by_spec": "client authentication, or failure"})
@@ -543,7 +575,7 @@ def resumption_matrix(ck, h, drv):
             msgs = [hello, "nocert"]            # a client without certificate answers the CertificateRequest with an empty Certificate
         else:
             msgs = [hello]
-        mver = 13 if ver == 13 else 12
+        mver = 13 if ver == 13 else ((200 + ver) if s.get("dtls") else 12)
         mlines.append("M %d s dhe %d 0 1 %s " % (mver, s["scb"], DEFAULT_OFFER) + " ".join(msgs))
         cases.append(lines[i]); os_ = obs_of(sv)
         impl_c.append("s=%s%s" % (os_, " resumed" if res == 1 and sv["done"] else ""))
@@ -563,7 +595,8 @@ def probes(ck, h):
     lines = ["V 13 s 0 0 0 0 0 1 1 0 0",                       # TLS 1.3 server without CA: does it reach certificate validation?
              "V 12 s 0 0 0 0 0 1 1 0 0",                       # TLS 1.2 server without CA: same question
              "L ver=12 suite=c02f schain=1 depth=2",          # documented: depth 2 = peer certificate + 1 root
-             "L ver=13 cca=0 ckeys=none schain=1"]            # TLS 1.3 client with NOTHING loaded
+             "L ver=13 cca=0 ckeys=none schain=1",            # TLS 1.3 client with NOTHING loaded
+             "L ver=12 dtls=1 suite=c02f cauth=1 scb=1 ticket=1 pre=auth"]   # session-ticket resumption over DTLS: does it complete?
     out = run_h(ck, h, lines, timeout=300)
     for k in (0, 1):
         if len(out) > k and "val=0" not in out[k]:
@@ -577,6 +610,14 @@ def probes(ck, h):
             ck.notes.append("over-strict (fail-closed, not a C04 violation): max_verify_depth=2 rejects leaf + self-signed root with unknown_ca, because "
                             "parseCertificate / psCheckSetPathLenFailure test self-signedness with memcmpct over the whole x509DNattributes_t "
                             "(heap pointers included), which never compares equal; the model takes the comparison's answer as the input cv_self")
+    if len(out) >= 4:
+        m = RES_L.match(out[3])
+        if m and parse_side(m.group(3))["done"]:
+            ck.notes.append("session-ticket resumption now completes over DTLS: add ticket offers to the DTLS resumption matrix")
+            ck.log("NOTE: " + ck.notes[-1])
+        else:
+            ck.notes.append("session-ticket resumption does not complete over DTLS in this build (server resumes from the ticket, the client waits for a "
+                            "Certificate: a liveness matter, not C04); the DTLS resumption matrix therefore offers session ids only")
     if len(out) >= 3:
         m = RES_L.match(out[2])
         if m and parse_side(m.group(2))["done"]:
@@ -621,6 +662,12 @@ def run(ck):
                        "c04_pop: sig_ok / fin_ok are arbitrary oracles (no cryptographic assumption is needed for the statement; unforgeability is what makes a "
                        "recorded successful check mean possession)",
                        "the chain validator's own correctness (which verdict a chain deserves) is C03; expected-name matching is C05"]
+    ck.assumptions += ["DTLS 1.0 / 1.2 share parseCertificate, parseServerKeyExchange, parseCertificateVerify, parseClientHello (resumption) and the state gate "
+                       "with TLS 1.1 / 1.2; what DTLS adds around them is NOT in the Coq model and only exercised by the live runs: the HelloVerifyRequest "
+                       "round (stateless cookie), 12-byte handshake headers with message_seq / fragment fields (the omitting peers stay self-consistent: "
+                       "message_seq and Finished are those of a peer that never wrote the message), epochs, retransmission on request (sess.h follows a "
+                       "retransmission request on flight boundaries only).  One DTLS difference IS modelled (p_dtls): a ChangeCipherSpec + Finished arriving "
+                       "while another handshake message is expected is dropped as out of order instead of answered with unexpected_message"]
     ck.build_repo()
     ck.regen([("consts.sh",)])
     ck.coq_properties()
@@ -640,10 +687,11 @@ def run(ck):
                     "FAIL_REVOKED, FAIL, FAIL_EXTENSION, FAIL_PATH_LEN, FAIL_AUTHKEY} x failFlags (all subsets of KEY_USAGE/SUBJECT/DATE for FAIL_EXTENSION, "
                     "{0, SUBJECT|DATE} otherwise) x position (leaf / issuer) x rc in {0,-1,ARG,PARSE,AUTH_FAIL,MEM, the status itself} x 8 callback behaviours "
                     "(none, echo, 0, alert 49, negative, allow-anon, accept-only-45, accept-only-48) x CA loaded x {TLS 1.2, TLS 1.3}; (B) all pairs of failing "
-                    "certificates; (C) max_verify_depth 1-3 x chain length 1-3 x self-signed patterns; (D) server verifying a client chain.  %d of %d "
+                    "certificates; (C) max_verify_depth 1-3 x chain length 1-3 x self-signed patterns; (D) server verifying a client chain; (E) DTLS 1.2 / DTLS 1.0, both roles.  %d of %d "
                     "domain points run (%s); a case is non-trivial if it ends fatally or involves the callback" % (n, total, "all" if ck.tier == "thorough" else "stratified sample"))
     ck.rules.append("live matrix: %d handshakes: {valid, expired, wrong CA, no CA, no CA + self-signed root, name mismatch, validator argument failure} x "
-                    "{no / strict / permissive callback} x {RSA key transport 009c/003c, ECDHE-RSA c02f, ECDHE-ECDSA c02b, TLS 1.3 RSA, TLS 1.3 ECDSA} x {client, "
+                    "{no / strict / permissive callback} x {RSA key transport 009c/003c, ECDHE-RSA c02f, ECDHE-ECDSA c02b, TLS 1.3 RSA, TLS 1.3 ECDSA, DTLS 1.2 "
+                    "c02f / c027 / c02b, DTLS 1.0 c013} x {client, "
                     "server verifying}; proofs of possession corrupted, over stale data, replayed from another handshake, made with another key, made with an "
                     "algorithm that was not offered, or simply ABSENT (CertificateVerify left out by a client / by a TLS 1.3 server, ServerKeyExchange "
                     "without signature; the omitting peer's own transcript and Finished are those of a peer that never wrote the message); RSA key "
@@ -651,7 +699,7 @@ def run(ck):
     ck.rules.append("resumption offers: %d runs of a server configured for client authentication (TLS 1.1, 1.2, 1.3; no / strict / permissive callback) "
                     "against clients offering a made-up session id, the id / ticket / TLS 1.3 ticket PSK of an expired, evicted (server restart), altered or "
                     "foreign-key session, of a genuine authenticated session, and of a session negotiated WITHOUT client authentication on the same keys; "
-                    "clients with and without a certificate (DTLS is not driven by this harness)" % nr)
+                    "clients with and without a certificate; the same over DTLS 1.2 (GCM, CBC) and DTLS 1.0 with session ids" % nr)
     ck.cov["resumption_scenarios"] = nr
     ck.cov["exhaustive"] = (ck.tier == "thorough")
     ck.cov["verdict_domain_size"] = total
